@@ -3,7 +3,7 @@ from __future__ import annotations
 
 from ..model import AnalysisError
 from ..norm import Normalizer, show_term
-from ..vgraph import NONE, Closure, show, walk
+from ..vgraph import FALSE, NONE, TRUE, Closure, show, walk
 from .util import bind_args, fields, live, one
 
 EXPLANATION = (
@@ -180,7 +180,7 @@ def check_train(s, cls, meth, loss_meth, grad_attr):
         if not ok_g:
             continue
         lf = G[1][1]
-        s.ob("C08.6", con, isinstance(lf, Closure) and lf.name == loss_meth and G[1][2] == ("const", True),
+        s.ob("C08.6", con, isinstance(lf, Closure) and lf.name == loss_meth and G[1][2] == TRUE,
              f"the differentiated function is {loss_meth} (has_aux=True)", loc, key="loss-fn", detail=show(G[1], maxlen=160))
         m = bind_args(fnl, G[2], G[3], skip_first=False)
         pnames = [a.arg for a in fnl.args.args]
